@@ -86,7 +86,21 @@ impl MoveGenerator {
         let key = (board.current_position_hash(), player as u8);
         if let Some(moves) = self.cache.get(&key) {
             self.hit_count += 1;
+            #[cfg(feature = "verif")]
+            if crate::verif::generator_observed() {
+                crate::verif::generator_event(crate::verif::GeneratorEvent::MoveCacheHit {
+                    hash: key.0,
+                    color: player as u8,
+                });
+            }
             return moves.clone();
+        }
+        #[cfg(feature = "verif")]
+        if crate::verif::generator_observed() {
+            crate::verif::generator_event(crate::verif::GeneratorEvent::MoveCacheMiss {
+                hash: key.0,
+                color: player as u8,
+            });
         }
 
         let moves = generate_valid_moves(board, player, &mut self.targets);
@@ -160,7 +174,21 @@ impl MoveGenerator {
         let board_hash = board.current_position_hash();
 
         if let Some(cached_targets) = self.targets.get_cached_attack(player, board_hash) {
+            #[cfg(feature = "verif")]
+            if crate::verif::generator_observed() {
+                crate::verif::generator_event(crate::verif::GeneratorEvent::AttackCacheHit {
+                    hash: board_hash,
+                    color: player as u8,
+                });
+            }
             return cached_targets;
+        }
+        #[cfg(feature = "verif")]
+        if crate::verif::generator_observed() {
+            crate::verif::generator_event(crate::verif::GeneratorEvent::AttackCacheMiss {
+                hash: board_hash,
+                color: player as u8,
+            });
         }
 
         let attack_targets = self.targets.generate_attack_targets(board, player);
